@@ -11,6 +11,7 @@ import (
 	"github.com/enbility/spine-go/api"
 	"github.com/enbility/spine-go/internal/verifh/engine"
 	"github.com/enbility/spine-go/internal/verifh/world"
+	"github.com/enbility/spine-go/internal/verifrt/vsync"
 	"github.com/enbility/spine-go/model"
 )
 
@@ -205,6 +206,76 @@ func c12ReconnectScenario(n int) *engine.SScenario {
 		}}
 }
 
+
+// c12BusyCallbackScenario: one of the applications is busy inside its callback (it returns only when the harness lets
+// it, after everything else has come to rest) while another one gives its verdict at once. Every callback is
+// presented the write although another callback has not returned yet, and a denial ends the write then and there:
+// at rest — the busy callback still busy — the error result is written; unanimous approval needs the busy one too.
+func c12BusyCallbackScenario(busy int, other byte) *engine.SScenario {
+	return &engine.SScenario{Name: fmt.Sprintf("callbacks=2, callback %d stays busy inside its invocation, the other answers %c at once", busy, other), TimersFree: false,
+		Run: func(cfg rt.Config) rt.Outcome {
+			var viol []string
+			var dig string
+			res := rt.Execute(cfg, func() {
+				w := stdWorld(false, "A")
+				a := w.Peers["A"]
+				f := w.L.FeatureByAddress(srvAddr("L1lc", true))
+				f.SetData(fnLimit, limitList(1, 1, 2))
+				a.Deliver(a.BindCall(cliAddr("A", "e1f1", true), srvAddr("L1lc", true), model.FeatureTypeTypeLoadControl))
+				var latch vsync.WaitGroup
+				latch.Add(1)
+				shown := map[int]int{}
+				for i := 0; i < 2; i++ {
+					i := i
+					_ = f.AddWriteApprovalCallback(func(msg *api.Message) {
+						c12count(shown, i)
+						if i == busy {
+							latch.Wait() // busy: returns (approving) only when the harness opens the latch
+							f.ApproveOrDenyWrite(msg, model.ErrorType{ErrorNumber: 0})
+							return
+						}
+						if other == 'D' {
+							f.ApproveOrDenyWrite(msg, model.ErrorType{ErrorNumber: 7})
+						} else {
+							f.ApproveOrDenyWrite(msg, model.ErrorType{ErrorNumber: 0})
+						}
+					})
+				}
+				d := a.Datagram(cliAddr("A", "e1f1", true), srvAddr("L1lc", true), model.CmdClassifierTypeWrite, true, nil, model.CmdType{LoadControlLimitListData: limitList(2, 1, 2)})
+				m := w.Mark()
+				rt.BeginExplore()
+				rt.Go(func() { a.Deliver(d) })
+				rt.WaitIdle() // everything that can run has run; the busy callback is still inside its invocation
+				okN, badN := countResults(w.Since(m), "A", uint64(*d.Header.MsgCounter))
+				for i := 0; i < 2; i++ {
+					if c12get(shown, i) != 1 {
+						viol = append(viol, fmt.Sprintf("a write was not presented to every callback while another callback was still busy | callback=%d times=%d", i, c12get(shown, i)))
+					}
+				}
+				if other == 'D' && (okN != 0 || badN != 1) {
+					viol = append(viol, fmt.Sprintf("a denial did not end the write while another callback was still busy | success=%d error=%d", okN, badN))
+				}
+				if other == 'A' && okN+badN != 0 {
+					viol = append(viol, fmt.Sprintf("a write got its outcome before every callback had answered | success=%d error=%d", okN, badN))
+				}
+				latch.Done()
+				rt.WaitIdle()
+				rt.Advance(time.Minute)
+				rt.WaitIdle()
+				rt.JoinFinished()
+				okN, badN = countResults(w.Since(m), "A", uint64(*d.Header.MsgCounter))
+				if okN+badN != 1 || (other == 'D' && okN != 0) || (other == 'A' && okN != 1) {
+					viol = append(viol, fmt.Sprintf("a write did not get exactly its one outcome | other=%c success=%d error=%d", other, okN, badN))
+				}
+				dig = fmt.Sprint(okN, badN)
+			})
+			return rt.Outcome{Res: res, Violations: append(viol, panicsAndDeadlocks(res)...), Digest: dig}
+		}}
+}
+
+//go:norace
+func c12get[K comparable](m map[K]int, k K) int { return m[k] }
+
 //go:norace
 func c12setInt(p *int, v int) { *p = v }
 
@@ -257,6 +328,9 @@ func c12Scenarios(thorough bool) []*engine.SScenario {
 		scs = append(scs, c12Scenario(len(p[0]), p))
 	}
 	scs = append(scs, c12ReconnectScenario(1), c12ReconnectScenario(2))
+	for _, busy := range []int{0, 1} {
+		scs = append(scs, c12BusyCallbackScenario(busy, 'D'), c12BusyCallbackScenario(busy, 'A'))
+	}
 	return scs
 }
 
